@@ -509,7 +509,7 @@ func writeEvidence(path string, w *World, spec *Spec, opt Options, results []*Ha
 	w.mu.Lock()
 	asserts := map[string]interface{}{}
 	for k, v := range w.assertSeen {
-		asserts[k] = map[string]int64{"checked": v, "unsat": w.assertDisch[k]}
+		asserts[k] = map[string]int64{"checked": v, "unsat": w.assertDisch[k], "constant_true_on_path": w.assertTriv[k]}
 	}
 	poison := map[string]string{}
 	for k, v := range w.poison {
